@@ -182,6 +182,7 @@ pub fn property() -> Property {
                 check_one_sided(a, &markers)?;
                 for (j, b) in ids.iter().enumerate() {
                     st.cases += 1;
+                    crate::engine::beat();
                     st.observations += 1;
                     let nt = check_pair(a, b, &markers)?;
                     if nt {
